@@ -86,6 +86,19 @@ fn eft_contraction<T: Dom>(n: usize, s: usize, m: usize) {
         }
     }
 }
+/// EFT over an average that can overshoot: bounded finite output for bounded input (a panic / NaN is a violation)
+fn eft_bounded<T: Dom>(n: usize, ma: VK, k: usize) {
+    let vk = VK::EFT(n, Box::new(ma));
+    let mut v = build::<T>(&vk, echo());
+    for t in 0..k {
+        let x = bounded_input::<T>(&format!("x{t}"));
+        v.update(x);
+        if let Some(o) = v.last() {
+            T::oblige(&format!("{} t={t}: output is finite", vk.name()), Cond::Bool(o.is_finite()));
+            T::oblige(&format!("{} t={t}: |out| <= ln 199 whatever the stream length", vk.name()), abs_le(o, T::c(199.0f64.ln())));
+        }
+    }
+}
 pub fn units(tier: Tier, _seed: u64) -> Vec<Unit> {
     let q = tier == Tier::Quick;
     let mut u = vec![];
@@ -120,6 +133,9 @@ pub fn units(tier: Tier, _seed: u64) -> Vec<Unit> {
     for g in (if q { vec![0.0, 0.2, 0.5, 0.8] } else { vec![0.0, 0.2, 0.5, 0.8, 0.95] }) {
         let m = ((32.0 / (1.0 - g)) as usize).min(400);
         u.push(unit!(format!("C09/linear/LaguerreFilter({g})/s=2/m={m}"), linear_fading(vec![VK::LaguerreFilter(g)], 2usize, m, 1usize)));
+    }
+    for ma in [VK::SuperSmoother(1), VK::SuperSmoother(2), VK::Ema(2)] {
+        let mut x = unit!(format!("C09/EFT(2,{})/bounded/k=6", ma.name()), eft_bounded(2usize, ma.clone(), 6usize)); x.panic_is_violation = true; u.push(x);
     }
     u.push(unit!("C09/linear/LaguerreFilter(0.5) over Ema(4)/s=2/m=128", linear_fading(vec![VK::LaguerreFilter(0.5), VK::Ema(4)], 2usize, 128usize, 4usize)));
     for x in u.iter_mut() { x.budget_s = if q { 60.0 } else { 600.0 }; x.path_cap = if q { 600 } else { 5000 }; x.branch_nl_timeout_ms = Some(500); }
